@@ -1074,8 +1074,14 @@ func (c *compiler) evalStatement(node ast.Statement) (interface{}, error) {
 	case *ast.ExpressionStatement:
 		s, err := c.evalExpression(t.Expression)
 		switch s.(type) {
-		case exitBlockStatment, ast.Printable, template.HTML:
+		case exitBlockStatment, ast.Printable:
 			return s, err
+		case template.HTML:
+			// literal text of the template is part of the block's output; an
+			// HTML *value* computed by a silent <% %> tag is not (as at top level)
+			if _, ok := t.Expression.(*ast.HTMLLiteral); ok {
+				return s, err
+			}
 		}
 
 		return nil, err
